@@ -162,3 +162,58 @@ func VerifHarness_C12_timeouts_grow() {
 	vAssert(tp.Propose(r) == time.Duration(tp.Propose0+tp.ProposeDelta*r)*time.Millisecond, "P5-propose-formula")
 	vReach("timeouts-computed")
 }
+
+// P6: the REAL timeout ticker keeps the newest timeout. Two timeouts are scheduled one after the
+// other (any heights, rounds, steps): the second replaces the first unless it is older (lower
+// height; same height and lower round; same height and round and not a later step) — in particular
+// a round-0 timeout of the NEXT height always replaces a late-round timeout of the previous one.
+func VerifHarness_C12_ticker_keeps_newest() {
+	steps := []RoundStepType{RoundStepNewHeight, RoundStepPropose, RoundStepPrevoteWait, RoundStepPrecommitWait}
+	mk := func(tag string, ms int) timeoutInfo {
+		return timeoutInfo{Duration: time.Duration(ms) * time.Millisecond, Height: int64(5 + vNondetLen(tag+".h", 0, 1)),
+			Round: int64(vNondetLen(tag+".r", 0, 2)), Step: steps[vNondetLen(tag+".s", 0, 3)]}
+	}
+	t1, t2 := mk("first", 40), mk("second", 90)
+	older := t2.Height < t1.Height || (t2.Height == t1.Height && (t2.Round < t1.Round || (t2.Round == t1.Round && t2.Step <= t1.Step)))
+	tt := &timeoutTicker{tickChan: make(chan timeoutInfo, tickTockBufferSize), tockChan: make(chan timeoutInfo, tickTockBufferSize)}
+	tt.BaseService = *vNewBase()
+	tt.BaseService.Start()
+	if vSymbolic() {
+		tt.timer = &time.Timer{C: make(chan time.Time)} // Stop / Reset are stubbed: armed timers are counted
+	} else {
+		tt.timer = time.NewTimer(time.Hour)
+	}
+	tt.ScheduleTimeout(t1)
+	tt.ScheduleTimeout(t2)
+	if vSymbolic() {
+		close(tt.Quit)
+		tt.timeoutRoutine()
+		vAssume(len(tt.tickChan) == 0) // only runs that took both ticks before leaving are of interest
+		vReach("both-ticks-taken")
+		armed := vStubCalls("time.Timer).Reset")
+		if older {
+			vAssert(armed == 1, "P6-the-newest-scheduled-timeout-is-the-one-kept")
+		} else {
+			vReach("replaced")
+			vAssert(armed == 2, "P6-the-newest-scheduled-timeout-is-the-one-kept")
+		}
+		return
+	}
+	go tt.timeoutRoutine()
+	time.Sleep(250 * time.Millisecond)
+	close(tt.Quit)
+	vReach("both-ticks-taken")
+	fired := 0
+	var last timeoutInfo
+	for len(tt.tockChan) > 0 {
+		last = <-tt.tockChan
+		fired++
+	}
+	want := t2
+	if older {
+		want = t1
+	} else {
+		vReach("replaced")
+	}
+	vAssert(fired == 1 && last == want, "P6-the-newest-scheduled-timeout-is-the-one-kept")
+}
